@@ -7,6 +7,15 @@ HOOK_COMMITS = subprocess.run(["git", "-C", "/repo", "log", "--format=%H", "--",
                               stdout=subprocess.PIPE, text=True).stdout.split()
 
 CLAIMED = {
+ "C08": dict(cat="proof", tech="two Coq models (memory / Redis store + Lua scripts) over the same position functions, each tied to its implementation by extracted-model correspondence; lock-step implementation pairs as failing-input search; shared-rule lemmas proved (partial)",
+   text="Every structure has a memory model and a Redis model (store of strings/lists/hashes/sorted sets, every Lua script as a store transformer), each diffed against its own implementation; both are parametric in the same position/fingerprint/rank functions. The two implementations are additionally run in lock-step on common histories (Top-K up to ties, cuckoo until the first relocation). Proved: the shared register rule, positions, ordering, exactness of Lua arithmetic below 2^53. The store-level refinement theorems are not yet proved (partial). One defect repaired (Redis HLL harmonic mean truncation).",
+   note="Trusted as C03 plus miniredis + gopher-lua as Redis.", ref="6 C08"),
+ "C09": dict(cat="proof", tech="Coq proof (attach rebuilds the handle from the metadata hash; queries/updates depend on immutable handle fields and the store only) for Count-Min + extracted-model correspondence with re-attachment for all five structures",
+   text="Theorems for the Redis Count-Min sketch: the constructor's metadata lets attach rebuild exactly (rows, columns, key); Count and Update depend only on those fields and the store, so both handles agree on every later store. For all structures attach is part of the Redis model and the harness re-attaches at random points (also after imports under new keys), drives both handles and compares all answers after every step. Seven metadata defects repaired.",
+   note="Trusted as C08. Cross-process sharing adds only that hashing is a fixed function (seeds are constants in the code); not exercised across OS processes yet.", ref="6 C09"),
+ "C19": dict(cat="proof", tech="Coq proof (key-derivation injectivity, frame lemma per Redis command) + correspondence of 2-8 interleaved structures in one database against their models run alone",
+   text="Proved: decimal suffixes and row keys are injective for equal-length base keys; every primitive command changes only its own key. Each generated case runs 2-8 live structures of mixed kinds in one miniredis with interleaved histories (creation, re-attachment, import under new keys) and diffs every answer of every structure against that structure's model run alone on an empty store.",
+   note="Trusted as C08; freshness of random base keys is assumed (52^16 space, time-seeded) and re-checked by the harness.", ref="6 C19"),
  "C10": dict(cat="proof", tech="Coq proof (import(export s) = s on parsed documents; UTF-8 sanitiser) + extracted-model correspondence on documents, Equals and paired queries",
    text="Export/Import are modelled on parsed JSON documents; theorems: import(export s)=s for Count-Min, HyperLogLog and Top-K on valid-UTF-8 elements; refutation for binary Top-K elements (known finding). Every structure's document, the import into dirty targets, Equals both ways and paired queries before/after further common updates are diffed against the code. Bloom/cuckoo documents are tied by correspondence only so far (partial). Two import defects were repaired.",
    note="Trusted as C03, plus encoding/json and base64 (the harness parses the implementation's bytes), floats opaque (bits<->text table from the implementation).", ref="6 C10"),
